@@ -25,3 +25,23 @@ package taskqueue
 //@   loop 1 invariant spawned == old(spawned) && targetWork == 1
 //@   loop 2 invariant spawned == old(spawned) && targetWork == 1
 //@   loop 3 invariant spawned == old(spawned) && targetWork == 1
+
+//@ -- ghost counters for the calls a manager makes on its task queue (C23 / C21: every popped task is reported done)
+//@ ghost nTaskDone int
+//@ ghost nPush int
+//@ ghost nRemove int
+//@ func TaskQueue.TaskDone
+//@   assumed
+//@   params p, task
+//@   modifies nothing
+//@   ghost nTaskDone := old(nTaskDone) + 1
+//@ func TaskQueue.PushTask
+//@   assumed
+//@   params p, task
+//@   modifies nothing
+//@   ghost nPush := old(nPush) + 1
+//@ func TaskQueue.Remove
+//@   assumed
+//@   params t, p
+//@   modifies nothing
+//@   ghost nRemove := old(nRemove) + 1
